@@ -32,6 +32,12 @@ type halfPipe struct {
 	log      []byte // everything ever written (tap), if keep
 	keep     bool
 	join     bool
+	rdl      time.Time // read deadline of the reading end (zero = none)
+	failAt   int       // >= 0 with failArm: this many further Write calls succeed, the next one fails (and every later one)
+	failArm  bool
+	gated    bool // writers block while set
+	blocked  int  // writers currently blocked at the gate
+	failed   bool
 }
 
 func newHalf(k int, seed uint32, keep bool) *halfPipe {
@@ -43,8 +49,20 @@ func newHalf(k int, seed uint32, keep bool) *halfPipe {
 func (h *halfPipe) write(p []byte) (int, error) {
 	h.mu.Lock()
 	defer h.mu.Unlock()
-	if h.wclosed || h.rclosed {
+	for h.gated && !h.wclosed && !h.rclosed {
+		h.blocked++
+		h.cond.Wait()
+		h.blocked--
+	}
+	if h.wclosed || h.rclosed || h.failed {
 		return 0, errClosedPipe
+	}
+	if h.failArm {
+		if h.failAt == 0 {
+			h.failed = true
+			return 0, errClosedPipe
+		}
+		h.failAt--
 	}
 	if len(p) > 0 {
 		if h.join && len(h.segs) > 0 {
@@ -67,6 +85,9 @@ func (h *halfPipe) read(p []byte) (int, error) {
 	for len(h.segs) == 0 {
 		if h.wclosed || h.rclosed || h.nonblock {
 			return 0, io.EOF
+		}
+		if !h.rdl.IsZero() && !time.Now().Before(h.rdl) {
+			return 0, errTimeout{}
 		}
 		h.cond.Wait()
 	}
@@ -91,6 +112,52 @@ func (h *halfPipe) read(p []byte) (int, error) {
 		h.segs[0] = h.segs[0][n:]
 	}
 	return n, nil
+}
+
+type errTimeout struct{}
+
+func (errTimeout) Error() string   { return "lv: i/o timeout" }
+func (errTimeout) Timeout() bool   { return true }
+func (errTimeout) Temporary() bool { return true }
+
+// setReadDeadline arms a wake-up so that a blocked reader notices the deadline
+func (h *halfPipe) setReadDeadline(t time.Time) {
+	h.mu.Lock()
+	h.rdl = t
+	h.cond.Broadcast()
+	h.mu.Unlock()
+	if !t.IsZero() {
+		d := time.Until(t)
+		if d < 0 {
+			d = 0
+		}
+		time.AfterFunc(d+time.Millisecond, func() { h.mu.Lock(); h.cond.Broadcast(); h.mu.Unlock() })
+	}
+}
+
+func (h *halfPipe) setGate(v bool) {
+	h.mu.Lock()
+	h.gated = v
+	h.cond.Broadcast()
+	h.mu.Unlock()
+}
+
+func (h *halfPipe) writersBlocked() int {
+	h.mu.Lock()
+	defer h.mu.Unlock()
+	return h.blocked
+}
+
+func (h *halfPipe) setFailAt(n int) {
+	h.mu.Lock()
+	h.failAt, h.failArm = n, true
+	h.mu.Unlock()
+}
+
+func (h *halfPipe) disarm() {
+	h.mu.Lock()
+	h.failArm = false
+	h.mu.Unlock()
 }
 
 func (h *halfPipe) closeWrite() {
@@ -156,8 +223,9 @@ func (lvAddr) String() string  { return "lv" }
 
 func (e *end) LocalAddr() net.Addr                { return lvAddr{} }
 func (e *end) RemoteAddr() net.Addr               { return lvAddr{} }
-func (e *end) SetDeadline(t time.Time) error      { return nil }
-func (e *end) SetReadDeadline(t time.Time) error  { return nil }
+// deadlines: reads honour them (a stalled peer is noticed); writes never block here, so a write deadline has nothing to do
+func (e *end) SetDeadline(t time.Time) error      { e.in.setReadDeadline(t); return nil }
+func (e *end) SetReadDeadline(t time.Time) error  { e.in.setReadDeadline(t); return nil }
 func (e *end) SetWriteDeadline(t time.Time) error { return nil }
 
 // duplex returns two connected endpoints; ab carries a->b, ba carries b->a.
